@@ -45,6 +45,48 @@ fn canon_bench(out: &str) -> String {
     res
 }
 
+fn rand_opts(rng: &mut Rng) -> String {
+    let mut v = Vec::new();
+    let mut add = |rng: &mut Rng, k: &str, val: String| {
+        if rng.chance(2, 5) {
+            v.push(format!("{k}={val}"));
+        }
+    };
+    let x = rng.below(1000);
+    add(rng, "sc", x.to_string());
+    let x = rng.below(1000);
+    add(rng, "ss", x.to_string());
+    let n = rng.below(4);
+    let t: Vec<String> = (0..n).map(|_| rng.below(5).to_string()).collect();
+    add(rng, "th", t.join(":"));
+    let x = rng.below(2);
+    add(rng, "ig", x.to_string());
+    let x = rng.log_u64() >> 8;
+    add(rng, "maxt", x.to_string());
+    let x = rng.log_u64() >> 8;
+    add(rng, "mint", x.to_string());
+    let x = rng.below(2);
+    add(rng, "sk", x.to_string());
+    for k in ["bytes", "chars", "cycles", "items"] {
+        let x = rng.log_u64();
+        add(rng, k, x.to_string());
+    }
+    if v.is_empty() {
+        "+".into()
+    } else {
+        v.join(",")
+    }
+}
+
+pub fn gen_ovw(rng: &mut Rng, n: usize) -> Vec<String> {
+    (0..n).map(|_| format!("ovw {} {}", rand_opts(rng), rand_opts(rng))).collect()
+}
+
+pub fn exec_ovw(toks: &[&str]) -> String {
+    let p = |s: &str| crate::reg_child::parse_opts(if s == "+" { "" } else { s }).unwrap();
+    divan::__verif::pure::overwrite_dump(&p(toks[0]), &p(toks[1]))
+}
+
 pub fn exec(_verb: &str, toks: &[&str]) -> String {
     let req = format!("reg {}", toks.join(" "));
     let mut cfg: Vec<(&str, &str)> = Vec::new();
